@@ -3252,6 +3252,8 @@ def lm_readlines(eng, node, o):
 
 
 def lib_random_randint(eng, node, a, b):
+    if eng.branch(toz(a) > toz(b)):
+        raise PyExc('ValueError', node.lineno)            # random.randint(a, b) with a > b: "empty range"
     c = eng.fresh('randint')
     eng.pc.append(z3.And(toz(a) <= c, c <= toz(b)))       # demonic: any value in [a, b]
     if getattr(eng, 'demonic', None) is not None:
